@@ -5,7 +5,10 @@ EXTENDS ErrLoc, Json, IOUtils
 MaxPre == atoi(IOEnv.MAXPRE)
 VARIABLES pre, done
 Init == pre = <<>> /\ done = FALSE
-Next == ~done /\ ( (Len(pre) < MaxPre /\ \E k \in PreKinds : pre' = Append(pre, k) /\ done' = FALSE)
+\* items that define a name are not repeated (re-definition in one scope is outside the statements)
+Defining == {"label", "macro", "scope"}
+Next == ~done /\ ( (Len(pre) < MaxPre /\ \E k \in PreKinds : (k \in Defining => \A j \in 1..Len(pre) : pre[j] # k)
+                                                              /\ pre' = Append(pre, k) /\ done' = FALSE)
                    \/ (done' = TRUE /\ pre' = pre) )
 Emit == ~done \/ \A fk \in FaultKinds, ind \in {0, 3}, tail \in {"more", "last", "eof"}, where \in {"main", "part"} :
           PrintT(ToJson([pre |-> pre, fault |-> fk, where |-> where, tail |-> tail, c |-> Case(pre, fk, ind, tail, where)]))
